@@ -686,4 +686,301 @@ theorem encPrefixB_cap {T : Tuning} {B S : Nat} (hH : Hint T B S) (hB2 : 2 ≤ B
     cases hv
     exact hcap.slices
 
+/-! ### World predicates along decoder sessions (borrowed / copied input, all drains) -/
+
+theorem readInto_closed {B : Nat} {P : World → List Backref → Prop} (hc : EncClosed B P) (i : Nat) (fuel : Nat) :
+    ∀ (w w' : World) (room : Nat) (acc out : List UInt8),
+    P w [] → World.readInto fuel w i room acc = some (w', out) → P w' [] := by
+  induction fuel with
+  | zero =>
+    intro w w' room acc out hw h
+    simp only [World.readInto, Option.some.injEq, Prod.mk.injEq] at h
+    rw [← h.1]; exact hw
+  | succ fuel ih =>
+    intro w w' room acc out hw h
+    rw [World.readInto] at h
+    by_cases hr : room = 0
+    · rw [if_pos hr] at h
+      simp only [Option.some.injEq, Prod.mk.injEq] at h
+      rw [← h.1]; exact hw
+    · rw [if_neg hr] at h
+      cases hv : w.iov i with
+      | none => rw [hv] at h; cases h
+      | some v =>
+        rw [hv] at h
+        simp only at h
+        cases hs : v.stableCount with
+        | none => rw [hs] at h; cases h
+        | some n =>
+          rw [hs] at h
+          simp only at h
+          cases hh : (v.slices.take n).head? with
+          | none =>
+            rw [hh] at h
+            simp only [Option.some.injEq, Prod.mk.injEq] at h
+            rw [← h.1]; exact hw
+          | some s0 =>
+            rw [hh] at h
+            simp only at h
+            cases ha : w.advance i (min s0.len room) with
+            | none => rw [ha] at h; cases h
+            | some x =>
+              obtain ⟨w1, n1⟩ := x
+              rw [ha] at h
+              exact ih w1 w' _ _ out (hc.advance ha hw) h
+
+/-- No anchored read in the call list: borrowed / copied pieces and drains (the vocabulary for which the
+guard half of `WorldInv` is proved, see `Props/C05H.lean`). -/
+def Plain : List BCall → Prop
+  | [] => True
+  | .a (.call _) :: t => Plain t
+  | .a (.read _ _ _ _) :: _ => False
+  | .rd _ :: t => Plain t
+
+/-- Every world predicate closed under one emit / one lent buffer / one drain holds between the calls of a
+decoder session, ACROSS errors (a failed call has applied the emits before the rejected byte, and the state
+it leaves, `InitialState`, waits for no chunk). -/
+theorem decCallsB_closed {B : Nat} {P : World → List Backref → Prop} (hc : EncClosed B P) (p : Params)
+    (hB : max p.maxInit p.maxSub ≤ B) (hB2 : 2 ≤ B) (i : Nat) (calls : List BCall) :
+    ∀ (r r' : DRun), Plain calls → DecSmall B r.s → P r.w [] → decCallsB p i r calls = some r' →
+      P r'.w [] ∧ DecSmall B r'.s := by
+  induction calls with
+  | nil =>
+    intro r r' _ hs hP h
+    simp only [decCallsB, Option.some.injEq] at h
+    subst h; exact ⟨hP, hs⟩
+  | cons c t ih =>
+    intro r r' hpl hs hP h
+    simp only [decCallsB] at h
+    cases h1 : decCallB p i r c with
+    | none => rw [h1] at h; cases h
+    | some r1 =>
+      rw [h1] at h
+      simp only at h
+      cases c with
+      | a c =>
+        cases c with
+        | call c =>
+          have hpl' : Plain t := hpl
+          cases c with
+          | feed m d =>
+            simp only [decCallB] at h1
+            cases h2 : decFeedCall p i r.w r.s m d with
+            | none => rw [h2] at h1; cases h1
+            | some x =>
+              obtain ⟨w1, res⟩ := x
+              rw [h2] at h1
+              simp only [Option.some.injEq] at h1
+              subst h1
+              obtain ⟨hP1, hs1⟩ := decFeedCall_closed hc p hB hB2 i r.w r.s m d hs hP w1 res h2
+              refine ih ⟨w1, decResume res, r.drained, _⟩ r' hpl' ?_ hP1 h
+              cases res with
+              | ok s1 => exact hs1 s1 rfl
+              | error e => exact trivial
+          | consume k =>
+            simp only [decCallB] at h1
+            cases hv : r.w.iov i with
+            | none => rw [hv] at h1; cases h1
+            | some v =>
+              cases hx : r.w.consume i k with
+              | none => rw [hv, hx] at h1; cases h1
+              | some x =>
+                obtain ⟨w1, n1⟩ := x
+                rw [hv, hx] at h1
+                simp only [Option.some.injEq] at h1
+                subst h1
+                exact ih ⟨w1, r.s, _, r.errs⟩ r' hpl' hs (hc.consume hx hP) h
+          | advance k =>
+            simp only [decCallB] at h1
+            cases hv : r.w.iov i with
+            | none => rw [hv] at h1; cases h1
+            | some v =>
+              cases hx : r.w.advance i k with
+              | none => rw [hv, hx] at h1; cases h1
+              | some x =>
+                obtain ⟨w1, n1⟩ := x
+                rw [hv, hx] at h1
+                simp only [Option.some.injEq] at h1
+                subst h1
+                exact ih ⟨w1, r.s, _, r.errs⟩ r' hpl' hs (hc.advance hx hP) h
+        | read count attempts src script => exact hpl.elim
+      | rd k =>
+        simp only [decCallB, readDrain] at h1
+        cases hx : World.readInto (k + 2) r.w i k [] with
+        | none => rw [hx] at h1; cases h1
+        | some x =>
+          obtain ⟨w1, out⟩ := x
+          rw [hx] at h1
+          simp only [Option.some.injEq] at h1
+          subst h1
+          exact ih ⟨w1, r.s, _, r.errs⟩ r' hpl hs (readInto_closed hc i (k + 2) r.w w1 k [] out hP hx) h
+
+/-! ### The old whole-run functions (stop at the first error) are the object read up to its first error -/
+
+theorem decCallB_errs (p : Params) (i : Nat) (r r' : DRun) (c : BCall) (h : decCallB p i r c = some r') :
+    ∃ x, r'.errs = r.errs ++ x := by
+  cases c with
+  | a c =>
+    cases c with
+    | call c =>
+      cases c with
+      | feed m d =>
+        simp only [decCallB] at h
+        cases h2 : decFeedCall p i r.w r.s m d with
+        | none => rw [h2] at h; cases h
+        | some x => rw [h2] at h; cases h; exact ⟨_, rfl⟩
+      | consume k =>
+        simp only [decCallB] at h
+        cases hv : r.w.iov i with
+        | none => rw [hv] at h; cases h
+        | some v =>
+          cases hx : r.w.consume i k with
+          | none => rw [hv, hx] at h; cases h
+          | some x => rw [hv, hx] at h; cases h; exact ⟨[], by simp⟩
+      | advance k =>
+        simp only [decCallB] at h
+        cases hv : r.w.iov i with
+        | none => rw [hv] at h; cases h
+        | some v =>
+          cases hx : r.w.advance i k with
+          | none => rw [hv, hx] at h; cases h
+          | some x => rw [hv, hx] at h; cases h; exact ⟨[], by simp⟩
+    | read count attempts src script =>
+      simp only [decCallB] at h
+      cases h2 : decodeRead p r.w i r.s ⟨src, script⟩ count attempts with
+      | none => rw [h2] at h; cases h
+      | some x =>
+        obtain ⟨w1, res, o⟩ := x
+        rw [h2] at h
+        cases res with
+        | error k => cases h; exact ⟨[], by simp⟩
+        | ok y => obtain ⟨n, dres⟩ := y; cases h; exact ⟨_, rfl⟩
+  | rd k =>
+    simp only [decCallB] at h
+    cases hx : readDrain r.w i k with
+    | none => rw [hx] at h; cases h
+    | some x => rw [hx] at h; cases h; exact ⟨[], by simp⟩
+
+theorem decCallsB_errs (p : Params) (i : Nat) (calls : List BCall) :
+    ∀ (r r' : DRun), decCallsB p i r calls = some r' → ∃ x, r'.errs = r.errs ++ x := by
+  induction calls with
+  | nil => intro r r' h; cases h; exact ⟨[], by simp⟩
+  | cons c t ih =>
+    intro r r' h
+    simp only [decCallsB] at h
+    cases h1 : decCallB p i r c with
+    | none => rw [h1] at h; cases h
+    | some r1 =>
+      rw [h1] at h
+      obtain ⟨x, hx⟩ := decCallB_errs p i r r1 c h1
+      obtain ⟨y, hy⟩ := ih r1 r' h
+      exact ⟨x ++ y, by rw [hy, hx, List.append_assoc]⟩
+
+/-- One step of the old run in terms of the object: the old run continues exactly when the call returned
+no error, and otherwise ends in the world the failed call left. -/
+theorem decCallsA_cons (p : Params) (i : Nat) (c : ACall) (t : List ACall) (r : DRun) :
+    decCallsA p i r.w r.s r.drained (c :: t) =
+      match decCallB p i r (.a c) with
+      | none => none
+      | some r' =>
+        match r'.errs.drop r.errs.length with
+        | [] => decCallsA p i r'.w r'.s r'.drained t
+        | e :: _ => some (r'.w, r'.drained, .error e) := by
+  cases c with
+  | call c =>
+    cases c with
+    | feed m d =>
+      simp only [decCallsA, decCallB]
+      cases decFeedCall p i r.w r.s m d with
+      | none => rfl
+      | some x =>
+        obtain ⟨w1, res⟩ := x
+        cases res with
+        | ok s1 => simp [errOf, decResume]
+        | error e => simp [errOf]
+    | consume k =>
+      simp only [decCallsA, decCallB]
+      cases r.w.iov i <;> cases r.w.consume i k <;> simp
+    | advance k =>
+      simp only [decCallsA, decCallB]
+      cases r.w.iov i <;> cases r.w.advance i k <;> simp
+  | read count attempts src script =>
+    simp only [decCallsA, decCallB]
+    cases decodeRead p r.w i r.s ⟨src, script⟩ count attempts with
+    | none => rfl
+    | some x =>
+      obtain ⟨w1, res, o⟩ := x
+      cases res with
+      | error k => simp
+      | ok y =>
+        obtain ⟨n, dres⟩ := y
+        cases dres with
+        | ok s1 => simp [errOf, decResume]
+        | error e => simp [errOf]
+
+/-- A session without error IS the old whole run (followed by `finish`). -/
+theorem decCallsA_of_no_error (p : Params) (i : Nat) (calls : List ACall) :
+    ∀ (r r' : DRun), decCallsB p i r (calls.map .a) = some r' → r'.errs = r.errs →
+      decCallsA p i r.w r.s r.drained calls = some (r'.w, r'.drained, Dec.finish r'.s) := by
+  induction calls with
+  | nil =>
+    intro r r' h _
+    simp only [List.map_nil, decCallsB, Option.some.injEq] at h
+    subst h; rfl
+  | cons c t ih =>
+    intro r r' h he
+    simp only [List.map_cons, decCallsB] at h
+    rw [decCallsA_cons]
+    cases h1 : decCallB p i r (.a c) with
+    | none => rw [h1] at h; cases h
+    | some r1 =>
+      rw [h1] at h
+      simp only at h ⊢
+      obtain ⟨x, hx⟩ := decCallB_errs p i r r1 (.a c) h1
+      obtain ⟨y, hy⟩ := decCallsB_errs p i (t.map .a) r1 r' h
+      have hxy : x = [] ∧ y = [] := by
+        rw [hy, hx, List.append_assoc] at he
+        have := congrArg List.length he
+        simp only [List.length_append] at this
+        constructor <;> apply List.eq_nil_of_length_eq_zero <;> omega
+      rw [hx, hxy.1, List.append_nil, List.drop_length]
+      simp only
+      exact ih r1 r' h (by rw [hy, hxy.2, List.append_nil])
+
+/-- A session whose LAST call is the first to return an error IS the old whole run of any call list that
+starts with it: the old run stops there, in that world, with that error. -/
+theorem decCallsA_of_first_error (p : Params) (i : Nat) (pre : List ACall) (c : ACall) (post : List ACall) (e : DecErr) :
+    ∀ (r r1 r' : DRun), decCallsB p i r (pre.map .a) = some r1 → r1.errs = r.errs →
+      decCallB p i r1 (.a c) = some r' → r'.errs = r.errs ++ [e] →
+      decCallsA p i r.w r.s r.drained (pre ++ c :: post) = some (r'.w, r'.drained, .error e) := by
+  induction pre with
+  | nil =>
+    intro r r1 r' h _ hc he
+    simp only [List.map_nil, decCallsB, Option.some.injEq] at h
+    subst h
+    simp only [List.nil_append]
+    rw [decCallsA_cons, hc]
+    simp only [he, List.drop_left]
+  | cons c0 t ih =>
+    intro r r1 r' h he1 hc he
+    simp only [List.map_cons, decCallsB] at h
+    simp only [List.cons_append]
+    rw [decCallsA_cons]
+    cases h1 : decCallB p i r (.a c0) with
+    | none => rw [h1] at h; cases h
+    | some r0 =>
+      rw [h1] at h
+      simp only at h ⊢
+      obtain ⟨x, hx⟩ := decCallB_errs p i r r0 (.a c0) h1
+      obtain ⟨y, hy⟩ := decCallsB_errs p i (t.map .a) r0 r1 h
+      have hxy : x = [] ∧ y = [] := by
+        rw [hy, hx, List.append_assoc] at he1
+        have := congrArg List.length he1
+        simp only [List.length_append] at this
+        constructor <;> apply List.eq_nil_of_length_eq_zero <;> omega
+      have h0 : r0.errs = r.errs := by rw [hx, hxy.1, List.append_nil]
+      rw [h0, List.drop_length]
+      simp only
+      exact ih r0 r1 r' h (by rw [hy, hxy.2, List.append_nil]) hc (by rw [he, h0])
+
 end Woodpile.EncWorld
